@@ -1355,11 +1355,77 @@ GEN_TREND = os.path.join(VERIF, "lean", "VerdeModel", "Gen", "Trend.lean")
 SNAP_TREND = os.path.join(VERIF, "lean", "VerdeModel", "GenSnapshot", "Trend.lean.txt")
 
 
+def _elementwise(n, names):
+    """An element-wise numpy expression over 1-D arrays -> the Lean expression for one element (`names`: python name -> Lean name)."""
+    if isinstance(n, ast.Name) and n.id in names:
+        return names[n.id]
+    if isinstance(n, ast.BinOp) and isinstance(n.op, ast.Pow) and isinstance(n.right, ast.Name) and n.right.id in names:
+        return f"({_elementwise(n.left, names)} ^ {names[n.right.id]})"
+    if isinstance(n, ast.BinOp) and type(n.op) in (ast.Mult, ast.Add, ast.Sub):
+        return f"({_elementwise(n.left, names)} {({ast.Mult: '*', ast.Add: '+', ast.Sub: '-'})[type(n.op)]} {_elementwise(n.right, names)})"
+    _fail(n, "element-wise expression")
+
+
+def translate_trend_methods():
+    path = "verde/trend.py"
+    src = open(os.path.join(REPO, path)).read()
+    tree = ast.parse(src)
+    cls = [n for n in tree.body if isinstance(n, ast.ClassDef) and n.name == "Trend"]
+    meth = {n.name: n for n in cls[0].body if isinstance(n, ast.FunctionDef)} if cls else {}
+    out = []
+    un = ast.unparse
+    # ---- jacobian
+    fn = meth.get("jacobian")
+    if fn is None:
+        raise Untranslatable("Trend.jacobian not found")
+    b = [x for x in fn.body if not (isinstance(x, ast.Expr) and isinstance(x.value, ast.Constant))]
+    loops = [x for x in b if isinstance(x, ast.For)]
+    pre = [un(x) for x in b if not isinstance(x, ast.For)]
+    need = ["easting, northing = n_1d_arrays(coordinates, 2)", "combinations = polynomial_power_combinations(self.degree)", "return out"]
+    if len(loops) != 1 or any(t not in pre for t in need):
+        _fail(fn, "Trend.jacobian layout")
+    lp = loops[0]
+    ok = (un(lp.target) == "(col, (i, j))" and un(lp.iter) == "enumerate(combinations)" and len(lp.body) == 1 and isinstance(lp.body[0], ast.Assign)
+          and un(lp.body[0].targets[0]) == "out[:, col]")
+    if not ok:
+        _fail(lp, "Trend.jacobian: for col, (i, j) in enumerate(combinations): out[:, col] = ...")
+    ex = _elementwise(lp.body[0].value, {"easting": "e", "northing": "n", "i": "i", "j": "j"})
+    seg = ast.get_source_segment(src, fn)
+    out.append(f"/-- translated statement by statement from {path}:{fn.lineno}-{fn.end_lineno} (Trend.jacobian), sha256 {hashlib.sha256(seg.encode()).hexdigest()[:16]};\n"
+               "    column `col` is the array expression of the loop body for the `col`-th exponent pair: row by row, the matrix below -/\n"
+               "def trendJacobian (easting northing : List Rat) (combinations : List (Nat × Nat)) : List (List Rat) :=\n"
+               f"  (easting.zip northing).map fun ((e, n) : Rat × Rat) => combinations.map fun ((i, j) : Nat × Nat) => {ex}      -- out[:, col] = {un(lp.body[0].value)}\n")
+    # ---- predict
+    fn = meth.get("predict")
+    b = [x for x in fn.body if not (isinstance(x, ast.Expr) and (isinstance(x.value, ast.Constant) or (isinstance(x.value, ast.Call) and getattr(x.value.func, "id", None) == "check_is_fitted")))]
+    loops = [x for x in b if isinstance(x, ast.For)]
+    pre = [un(x) for x in b if not isinstance(x, ast.For)]
+    if len(loops) != 1 or "combinations = polynomial_power_combinations(self.degree)" not in pre or not any(t.startswith("data = np.zeros(") for t in pre) \
+            or "return data.reshape(shape)" not in pre:
+        _fail(fn, "Trend.predict layout")
+    lp = loops[0]
+    tgt, it = un(lp.target), un(lp.iter)
+    ok = (it in ("zip(self.coef_, combinations)", "zip(combinations, self.coef_)") and tgt in ("(coef, (i, j))", "((i, j), coef)")
+          and (it.startswith("zip(self.coef_") == tgt.startswith("(coef")) and len(lp.body) == 1 and isinstance(lp.body[0], ast.AugAssign)
+          and isinstance(lp.body[0].op, ast.Add) and _is_name(lp.body[0].target, "data"))
+    if not ok:
+        _fail(lp, "Trend.predict: for coef, (i, j) in zip(self.coef_, combinations): data += ...")
+    ex = _elementwise(lp.body[0].value, {"easting": "e", "northing": "n", "i": "i", "j": "j", "coef": "coef"})
+    seg = ast.get_source_segment(src, fn)
+    out.append(f"/-- translated statement by statement from {path}:{fn.lineno}-{fn.end_lineno} (Trend.predict), sha256 {hashlib.sha256(seg.encode()).hexdigest()[:16]} -/\n"
+               "def trendPredict (self_coef : List Rat) (combinations : List (Nat × Nat)) (easting northing : List Rat) : List Rat :=\n"
+               "  let data : List Rat := easting.map fun _ => 0      -- np.zeros(easting.size)\n"
+               "  (self_coef.zip combinations).foldl (fun data (cij : Rat × Nat × Nat) =>      -- for coef, (i, j) in zip(self.coef_, combinations):\n"
+               "      let (coef, i, j) := cij\n"
+               f"      List.zipWith (· + ·) data (List.zipWith (fun e n => {ex}) easting northing)) data      -- data += {un(lp.body[0].value)}\n")
+    return out
+
+
 def generate_trend():
     parts = [
         translate_typed("verde/trend.py", "polynomial_power_combinations", "powerCombinations",
                         [("degree", "degree", "int")], ["list:nat×nat"]),
-    ]
+    ] + translate_trend_methods()
     return HEADER_TREND + "\n".join(parts) + "\nend Verde.Gen\n"
 
 
